@@ -2,9 +2,15 @@ import BppModel.Proto
 import BppModel.Drive.C01
 import BppModel.Drive.C02
 import BppModel.Drive.C05
+import BppModel.Drive.C06
 import BppModel.Drive.C07
 import BppModel.Drive.C08
 import BppModel.Drive.C11
+import BppModel.Drive.C12
+import BppModel.Drive.C14
+import BppModel.Drive.C15
+import BppModel.Drive.C17
+import BppModel.Drive.C18
 import BppModel.Drive.C19
 import BppModel.Drive.C20
 open Bpp
@@ -14,9 +20,15 @@ def main (args : List String) : IO UInt32 := do
   | ["C01"] => Proto.run Drive.C01.machine; return 0
   | ["C02"] => Proto.run Drive.C02.machine; return 0
   | ["C05"] => Proto.run Drive.C05.machine; return 0
+  | ["C06"] => Proto.run Drive.C06.machine; return 0
   | ["C07"] => Proto.run Drive.C07.machine; return 0
   | ["C08"] => Proto.run Drive.C08.machine; return 0
   | ["C11"] => Proto.run Drive.C11.machine; return 0
+  | ["C12"] => Proto.run Drive.C12.machine; return 0
+  | ["C14"] => Proto.run Drive.C14.machine; return 0
+  | ["C15"] => Proto.run Drive.C15.machine; return 0
+  | ["C17"] => Proto.run Drive.C17.machine; return 0
+  | ["C18"] => Proto.run Drive.C18.machine; return 0
   | ["C19"] => Proto.run Drive.C19.machine; return 0
   | ["C20"] => Proto.run Drive.C20.machine; return 0
   | _ => IO.eprintln "usage: driver <property-id> < script"; return 2
